@@ -413,6 +413,36 @@ func c01Oracle(r *Rng, tier string, rep *Report) {
 			check([]byte(p[:i]))
 		}
 	}
+	// programs from the ES2022 grammar generator of C03 (every statement, declaration, class, function, arrow,
+	// destructuring, template and operator form), as written, truncated and with one byte mutated
+	np := 700
+	if tier == "thorough" {
+		np = 30000
+	}
+	for it := 0; it < np; it++ {
+		var src []byte
+		if pan := catch(func() {
+			g := c03NewProgGen(r, it%4)
+			src = c03Spell3(r, g.program(1+r.Intn(3), 1+r.Intn(3)))
+		}); pan != nil || len(src) == 0 {
+			continue
+		}
+		check(src)
+		if len(src) > 1 {
+			check(src[:1+r.Intn(len(src)-1)])
+			m := append([]byte{}, src...)
+			i := r.Intn(len(m))
+			switch r.Intn(3) {
+			case 0:
+				m = append(m[:i], m[i+1:]...)
+			case 1:
+				m[i] = c01Fragments[r.Intn(len(c01Fragments))][0]
+			default:
+				m = append(m[:i], append([]byte(c01Fragments[r.Intn(len(c01Fragments))]), m[i:]...)...)
+			}
+			check(m)
+		}
+	}
 	for it := 0; it < n; it++ {
 		var sb []byte
 		k := 1 + r.Intn(12)
